@@ -1132,7 +1132,7 @@ def run(ctx):
     vocab = Vocab(cirq)
     witness_stream(ctx, cirq, vocab)
     moment_stream(ctx, cirq, vocab, 150 if ctx.tier == 'quick' else 400)
-    n = 360 if ctx.tier == 'quick' else 6000
+    n = 500 if ctx.tier == 'quick' else 6000
     history_stream(ctx, cirq, vocab, n)
 
 
